@@ -245,7 +245,7 @@ async def _body(run: Run, sdef: dict, ctx: Context, ev: Any) -> Any:
     run.trace.steps.append(("enter", name, uid, rn, loop.time(), info))
     status = "ok"
     try:
-        return await _interp(run, sdef, ctx, ev, rn)
+        return await _interp(run, sdef, ctx, ev, rn, inv=uid)
     except asyncio.CancelledError:
         status = "cancelled"
         oc = next((a for a in sdef["script"] if a[0] == "on_cancel_stream"), None)
@@ -312,7 +312,18 @@ def _ret_value0(run: Run, act: list, ev: Any) -> Any:
     return ET.mk(int(what), (base * 8 + 7) if det else run.fresh(), k)
 
 
-async def _interp(run: Run, sdef: dict, ctx: Context, ev: Any, rn: int) -> Any:
+def _worker_id_of(run: Run, name: str, ev: Any) -> int | None:
+    """worker id of the running invocation of step `name` whose input is the event object `ev` (None if not unique)"""
+    try:
+        ids = [ip.worker_id for ip in run.runner.state.workers[name].in_progress if ip.event is ev]
+    except Exception:
+        return None
+    return ids[0] if len(ids) == 1 else None
+
+
+async def _interp(run: Run, sdef: dict, ctx: Context, ev: Any, rn: int, inv: Any = None) -> Any:
+    """`inv`: the identity of this invocation as `_body` records it (for a handler the ("sfe", step, input uid, attempts)
+    tuple of the failure it handles; `uid` below is 0 there)"""
     name = sdef["name"]
     uid = getattr(ev, "uid", 0)
     run.__dict__.setdefault("_last_waited", {})[uid] = []  # per execution of the invocation (see "ret stop waited")
@@ -341,9 +352,13 @@ async def _interp(run: Run, sdef: dict, ctx: Context, ev: Any, rn: int) -> Any:
                 # "same_uid_sends": a batch of content-identical events (Work() x N) -- the ticks carrying them serialise identically
                 sent = ET.mk(act[1], (uid or 0) * 8 + 1 + (0 if run.spec.get("same_uid_sends") else nsent), act[3] if len(act) > 3 else None)
             else:
-                sent = ET.mk(act[1], run.fresh(), act[3] if len(act) > 3 else None)
+                sk = act[3] if len(act) > 3 else None
+                if sk == "same":  # the item is re-dispatched with its k (a handler: the k of the failed invocation's input)
+                    sk = getattr(ev.input_event if isinstance(ev, StepFailedEvent) else ev, "k", None)
+                sent = ET.mk(act[1], run.fresh(), sk)
             run.trace.steps.append(("sent", name, uid, rn, asyncio.get_event_loop().time(),
-                                    {"new_uid": sent.uid, "ty": act[1], "target": act[2]}))
+                                    {"new_uid": sent.uid, "ty": act[1], "target": act[2], "inv": inv if inv is not None else uid,
+                                     "wid": _worker_id_of(run, name, ev), "obj": sent}))
             ctx.send_event(sent, step=act[2])
         elif op == "stream":
             ctx.write_event_to_stream(ET.mk(act[1], run.fresh(), None))
@@ -496,7 +511,7 @@ def install_observers() -> None:
         caller = sys._getframe(1).f_code.co_name
         run = _ACTIVE[-1] if _ACTIVE else None
         del _CURRENT_ORACLE[:]
-        if run is not None and len(run.trace.calls) > MAX_CALLS and caller == "_process_tick":
+        if run is not None and len(run.trace.calls) > run.spec.get("max_calls", MAX_CALLS) and caller == "_process_tick":
             raise RunawayRun()
         try:
             st, cmds = _orig_reduce(tick, init, now_seconds, run_id=run_id)
